@@ -41,9 +41,9 @@ def run(prog, rep):
     # re-fitted after its conditioners is C14's protocol; filed here too
     from . import c14
     dep = Relabel(rep, "C09.dependence")
-    for part in (c14.start_result, c14.protocol):
+    for part in (c14.bounds, c14.start_result, c14.protocol):
         rep.part(part, prog, dep)
-    rep.expect_min("C09.dependence", 8)
+    rep.expect_min("C09.dependence", 18)
     rep.expect_min("C09.dims", 5)
     rep.expect_min("C09.split", 3)
     rep.expect_min("C09.masks", 4)
